@@ -450,6 +450,45 @@ func (x *Exec) copyStruct(st *State, t types.Type, dst, src Term) {
 	}
 }
 
+// structElems allocates n fresh, pairwise distinct locations for the elements of a slice of struct
+// values and returns the array of their references. src == nil: the elements are zero values;
+// otherwise element i is a copy of the struct at reference src[i] (append, composite literals).
+// Elements of one slice at different indices are different variables (Go spec, "Slice types"):
+// the references are base-1-i, a linear, injective function of the index.
+func (x *Exec) structElems(st *State, t types.Type, n Term, src *Term) Term {
+	base, _ := st.names["$alloc"].(Term)
+	if base.S == "" {
+		base = intLit(0)
+	}
+	lo := Term{"(- " + base.S + " " + n.S + ")", SInt}
+	st.assume("(>= " + n.S + " 0)")
+	st.names["$alloc"] = lo
+	arr := x.fresh("elrefs", arraySort(SInt, SInt))
+	st.assume(fmt.Sprintf("(forall ((i Int)) (! (=> (and (<= 0 i) (< i %s)) (= (select %s i) (- %s 1 i))) :pattern ((select %s i))))", n.S, arr.S, base.S, arr.S))
+	var fill func(t types.Type)
+	fill = func(t types.Type) {
+		u := t.Underlying().(*types.Struct)
+		for i := 0; i < u.NumFields(); i++ {
+			f := u.Field(i)
+			if x.isLocStruct(f.Type()) {
+				engineFail("slice of %s: nested struct field %s is outside the element model", t, f.Name())
+			}
+			fs := x.sortOf(f.Type())
+			key := x.fieldKey(t, f)
+			old := x.heapGet(st, key, arraySort(SInt, fs))
+			nf := x.fresh(key+"_el", arraySort(SInt, fs))
+			val := zeroOf(fs).S
+			if src != nil {
+				val = fmt.Sprintf("(select %s (select %s (- %s 1 r)))", old.S, src.S, base.S)
+			}
+			st.assume(fmt.Sprintf("(forall ((r Int)) (! (= (select %s r) (ite (and (<= %s r) (< r %s)) %s (select %s r))) :pattern ((select %s r))))", nf.S, lo.S, base.S, val, old.S, nf.S))
+			st.heap[key] = nf
+		}
+	}
+	fill(t)
+	return arr
+}
+
 // seKey names the heap of slice contents. Slices of different element types cannot alias, so each
 // non-basic element type has its own heap (basic element types share one per sort).
 func (x *Exec) seKey(es Sort, et ...types.Type) string {
@@ -1493,6 +1532,10 @@ func (x *Exec) evalComposite(e *ast.CompositeLit, st *State) (Value, types.Type)
 			}
 			v := x.evalT(el, st)
 			arr = Term{fmt.Sprintf("(store %s %d %s)", arr.S, i, v.S), arr.Sort}
+		}
+		if x.isLocStruct(u.Elem()) && len(e.Elts) > 0 {
+			// the elements are variables of their own holding copies of the listed values
+			arr = x.structElems(st, u.Elem(), intLit(int64(len(e.Elts))), &arr)
 		}
 		return x.newSlice(st, intLit(int64(len(e.Elts))), es, &arr, u.Elem()), t
 	case *types.Map:
